@@ -642,7 +642,8 @@ func genDebRaw(r *rand.Rand, tier string, out *Writer) {
 		n := len(base.Bytes)
 		out.Put(J{"k": "debraw", "ctl": comps[0], "data": comps[1], "op": "none"})
 		for _, nm := range []string{"control.sig", "data.sig", "control.tar", "data.tar.gz", "_gpgorigin", "control.", "data.x.tar",
-			"control-old.tar", "data-old.tar", "controlx.tar.gz", "datax.tar.gz", "control", "data", "Control.tar", "xcontrol.tar"} {
+			"control-old.tar", "data-old.tar", "controlx.tar.gz", "datax.tar.gz", "control", "data", "Control.tar", "xcontrol.tar",
+			"control./x.tar", "data./x.tar", "x/control.tar", "control.tar.asc", "data.tar.sig"} {
 			out.Put(J{"k": "debraw", "ctl": comps[0], "data": comps[1], "op": "extra_member", "name": nm})
 		}
 		for _, t := range []string{"", "\n", "Package\n", ": x\n", "-----BEGIN PGP SIGNED MESSAGE-----\n", "-----BEGIN PGP SIGNED MESSAGE-----\nHash: SHA256\n\nPackage: a\nVersion: 1\n",
